@@ -138,6 +138,8 @@ func maxAbsDiff(a, b V) float64 { return a.sub(b).maxAbs() }
 // transform, plus its Apply against the documented definition for the kinds
 // whose documentation fixes it.
 func checkLaws(c *vlib.Case, dim int, s *spec) {
+	tl := newTally(c)
+	defer tl.flush()
 	rng := c.Rng
 	name := s.name(dim)
 	r := s.ref()
@@ -145,7 +147,8 @@ func checkLaws(c *vlib.Case, dim int, s *spec) {
 	t := s.adapter(dim)
 	ti := t.inverse()
 	pre := fmt.Sprintf("laws%dd.%s.", dim, s.Kind)
-	c.Count(pre+"transforms", 1)
+	tl.Count(pre+"transforms", 1)
+	c.Sample(fmt.Sprintf("laws%dd.%s", dim, s.Kind), 1, s.describe())
 	moved := false
 
 	for i := 0; i < 10; i++ {
@@ -168,7 +171,7 @@ func checkLaws(c *vlib.Case, dim int, s *spec) {
 				c.Undecided("laws.apply.ill-conditioned")
 			} else {
 				tol := relTol * a.M * amp
-				c.Count(pre+"apply_definition", 1)
+				tl.Count(pre+"apply_definition", 1)
 				if d := maxAbsDiff(y, yr); !(d <= tol) {
 					c.Violationf(name+".Apply/definition", wit(s, "p", p, "got", y, "want", yr, "tol", tol),
 						"%s.Apply(p) = %v but the documented map gives %v (diff %.3g > tol %.3g)", name, y, yr, d, tol)
@@ -182,10 +185,10 @@ func checkLaws(c *vlib.Case, dim int, s *spec) {
 		} else {
 			q := ti.apply(y)
 			tol := relTol * a.M * amp
-			c.Count(pre+"inverse_after_apply", 1)
+			tl.Count(pre+"inverse_after_apply", 1)
 			d := maxAbsDiff(q, p)
 			if tol > 0 {
-				c.Max("laws.worst_roundtrip_over_tol", d/tol)
+				tl.Max("laws.worst_roundtrip_over_tol", d/tol)
 			}
 			if !(d <= tol) {
 				c.Violationf(name+".Inverse/inverse-after-apply", wit(s, "p", p, "t(p)", y, "inv(t(p))", q, "tol", tol),
@@ -203,10 +206,10 @@ func checkLaws(c *vlib.Case, dim int, s *spec) {
 		} else {
 			z := t.apply(ti.apply(p))
 			tol := relTol * math.Max(ai.M, af.M) * amp
-			c.Count(pre+"apply_after_inverse", 1)
+			tl.Count(pre+"apply_after_inverse", 1)
 			d := maxAbsDiff(z, p)
 			if tol > 0 {
-				c.Max("laws.worst_roundtrip_over_tol", d/tol)
+				tl.Max("laws.worst_roundtrip_over_tol", d/tol)
 			}
 			if !(d <= tol) {
 				c.Violationf(name+".Inverse/apply-after-inverse", wit(s, "p", p, "inv(p)", ti.apply(p), "t(inv(p))", z, "tol", tol),
@@ -233,7 +236,7 @@ func checkLaws(c *vlib.Case, dim int, s *spec) {
 			}
 		}
 		bmin, bmax := t.bounds(lo, hi)
-		c.Count(pre+"bounds_boxes", 1)
+		tl.Count(pre+"bounds_boxes", 1)
 		if !bmin.finite() || !bmax.finite() {
 			c.Violationf(name+".ApplyBounds/finite", wit(s, "min", lo, "max", hi), "ApplyBounds returned non-finite bounds %v %v", bmin, bmax)
 			continue
@@ -273,7 +276,7 @@ func checkLaws(c *vlib.Case, dim int, s *spec) {
 				continue
 			}
 			slack := relTol * math.Max(a.M, math.Max(bmin.maxAbs(), bmax.maxAbs()))
-			c.Count(pre+"bounds_points", 1)
+			tl.Count(pre+"bounds_points", 1)
 			for j := 0; j < dim; j++ {
 				if y[j] < bmin[j]-slack || y[j] > bmax[j]+slack {
 					c.Violationf(name+".ApplyBounds/encloses-image", wit(s, "min", lo, "max", hi, "q", q, "t(q)", y, "newMin", bmin, "newMax", bmax),
@@ -314,13 +317,13 @@ func checkLaws(c *vlib.Case, dim int, s *spec) {
 			got, _ := t.dist(d)
 			img := t.apply(p).dist(t.apply(q))
 			tol := relTol*k*d + relTol*a.M*a.F
-			c.Count(pre+"distance_pairs", 1)
+			tl.Count(pre+"distance_pairs", 1)
 			if !(math.Abs(got-img) <= tol) {
 				c.Violationf(name+".ApplyDistance/equals-image-distance", wit(s, "p", p, "q", q, "dist", d, "ApplyDistance", got, "image_dist", img),
 					"ApplyDistance(|p-q| = %.17g) = %.17g but |t(p)-t(q)| = %.17g", d, got, img)
 			}
 			if back, ok := ti.dist(got); ok {
-				c.Count(pre+"distance_inverse", 1)
+				tl.Count(pre+"distance_inverse", 1)
 				if !(math.Abs(back-d) <= relTol*d*4) {
 					c.Violationf(name+".Inverse/ApplyDistance-inverts", wit(s, "dist", d, "ApplyDistance", got, "back", back),
 						"Inverse().ApplyDistance(ApplyDistance(%.17g)) = %.17g", d, back)
@@ -331,12 +334,12 @@ func checkLaws(c *vlib.Case, dim int, s *spec) {
 }
 
 func lawsSections(r *vlib.Run) {
-	r.Section("laws3d", r.N(30000, 600000), vlib.SectionOpts{}, func(c *vlib.Case) {
+	r.Section("laws3d", r.N(80000, 1000000), vlib.SectionOpts{}, func(c *vlib.Case) {
 		o := genOpts{dim: 3, toolbox: true, depth: 2, cond: 1e4}
 		o.distOnly = c.Rng.Intn(3) == 0
 		checkLaws(c, 3, genSpec(c.Rng, o))
 	})
-	r.Section("laws2d", r.N(20000, 400000), vlib.SectionOpts{}, func(c *vlib.Case) {
+	r.Section("laws2d", r.N(50000, 600000), vlib.SectionOpts{}, func(c *vlib.Case) {
 		o := genOpts{dim: 2, depth: 2, cond: 1e4}
 		o.distOnly = c.Rng.Intn(3) == 0
 		checkLaws(c, 2, genSpec(c.Rng, o))
